@@ -52,6 +52,12 @@ def step (s : St) (ws : List String) : IO (St × String) := do
     let d := damaged s.wal (natArg cut) (parseFlips fl)
     let (rc, m, w') := Wal.recover (cfgOf (crc == "1")) (natArg mode) d s.pre
     return (s, s!"rec rc={rcName rc} msz={m.length} mh={hex16 (fnv m)} wsz={w'.length}")
+  | ["ckpt", p, w, _] =>
+    -- a real checkpoint: roll the whole log forward (mode 0, no offset) over the pre-image
+    let pre ← readBytes p
+    let wal ← readBytes w
+    let o := Wal.rollforward (cfgOf true) 0 0 wal pre
+    return (s, s!"ckpt rc={rcName o.rc} msz={o.main.length} mh={hex16 (fnv o.main)}")
   | _ => return (s, "skip")
 
 partial def main : IO Unit := do
